@@ -5,7 +5,11 @@ def harnesses(tier):
     n = 56
     return [AHarness('M1_LiveOutputManager', 'c12_lom.cpp', 'h_m1_lom', unwind=n + 2, timeout=600,
         what='LiveOutputManager constructor + destructor on storage with ARBITRARY previous content, all 5 option flags symbolic: every owned pointer is null or a live object allocated by the constructor, exactly the enabled calculators exist, the destructor frees only heap objects it owns (no invalid free, no double free)',
-        bound='all 2^5 option combinations x arbitrary previous storage bytes; calculator classes modelled as trivial heap objects')]
+        bound='all 2^5 option combinations x arbitrary previous storage bytes; calculator classes modelled as trivial heap objects'),
+            AHarness('M2_clear_after', 'c12_tsv.cpp', 'h_m2_clear_after', unwind=6, timeout=600, native_replay=False,
+        what='ThreadSafeVector::clear_after(offset) from ANY state (ring counter arbitrary, i.e. also after it has wrapped): slots >= offset are released and reset, slots below are untouched, counters == offset, and no access leaves the two arrays (pointer checks on exactly-sized arrays)', bound='4 slots, offset in [0,4], flags / contents / counters symbolic'),
+            AHarness('M2_get_free_elements', 'c12_tsv.cpp', 'h_m2_block', unwind=6, timeout=600, native_replay=False,
+        what='ThreadSafeVector::get_free_elements(n): exactly the first n slots are taken, counters == n, no out-of-bounds access', bound='4 slots, n in [0,3]')]
 
 def run(tier, only=None):
     ev = Evidence('C12', tier); work = Work('C12')
